@@ -4,7 +4,7 @@
    every run, [code_valid] (Gen/ValidPacket.v) from pkg/scan/{tcp,icmp,arp}.  [reported w vpn r st f] =
    the capture filter the command attaches for range r (libpcap's meaning of the filter expression, on the
    link type of the packet source) accepts frame f AND ProcessPacketData of the command's scan method
-   emits a record, from decoder state st (= any history of earlier frames).  r ranges over ALL ranges,
+   emits a record for f CUT TO THE SNAPSHOT LENGTH the filter builder hands to the kernel, from decoder state st (= any history of earlier frames).  r ranges over ALL ranges,
    in particular over the range of every chunk of <= 200 port ranges that startPortScanEngine scans
    with its own engine and filter.  PARTIAL: libpcap's compiler and the kernel's BPF interpreter are
    exercised by the correspondence check, not proved. *)
@@ -39,31 +39,37 @@ Qed.
 Theorem C03_every_command_classified : forall w, In w wirings -> exists c, class_of_cmd (w_cmd w) = Some c.
 Proof.
   intros w Hin. pose proof (wiring_in_ok w Hin) as H. unfold cmd_wiring_ok in H.
+  apply andb_true_iff in H. destruct H as [_ H].
   destruct (class_of_cmd (w_cmd w)) as [c|]; [exists c; reflexivity|discriminate].
 Qed.
 
 (* a reported frame yields a record that carries that frame's own source address, source port and
    flag letters / ICMP type, code and TTL / sender IP and MAC *)
 Theorem C03_record_faithful : forall w vpn r st f,
-  reported w vpn r st f = true ->
-  snd (process (kind_of_method (w_method w)) (method_raw w vpn) (code_valid (kind_of_method (w_method w))) st f)
+  In w wirings -> wf_unfrag (source_raw w vpn) f = true -> reported w vpn r st f = true ->
+  snd (process (kind_of_method (w_method w)) (method_raw w vpn) (code_valid (kind_of_method (w_method w))) st
+               (take (snaplen_of (w_filter w)) f))
   = ORecord (fields_of (kind_of_method (w_method w)) (method_raw w vpn) f).
-Proof.
-  intros w vpn r st f H. unfold reported in H. apply andb_true_iff in H. destruct H as [_ H].
-  set (k := kind_of_method (w_method w)) in *.
-  destruct (process k (method_raw w vpn) (code_valid k) st f) as [st' o] eqn:E. destruct o; try discriminate.
-  cbn [snd]. f_equal. exact (proj2 (process_record k (code_valid k) (code_valid_sound k) _ _ _ _ _ E)).
-Qed.
+Proof. intros w vpn r st f Hin. exact (reported_record w vpn r st f (wiring_in_ok w Hin)). Qed.
+
+(* the snapshot length each builder hands to the kernel covers the largest header chain its scan method
+   decodes (Ethernet 14 + IPv4 <= 60 + TCP <= 60 / ICMP 8; Ethernet + ARP 28), so cutting accepted frames
+   to it loses nothing the record needs: part of C03_wiring_ok, used by C03_iff and C03_record_faithful;
+   restated here over the translated constants *)
+Theorem C03_snaplen_covers_headers :
+  14 + 60 + 60 <= tcp_snaplen /\ 14 + 60 + 60 <= synack_snaplen /\ 14 + 60 + 8 <= icmp_snaplen /\ 14 + 28 <= arp_snaplen.
+Proof. vm_compute. repeat split; discriminate. Qed.
 
 (* each reply-shaped frame yields exactly one record (a call has one outcome), no other frame yields one *)
 Theorem C03_one_record : forall w c vpn r st f,
   In w wirings -> class_of_cmd (w_cmd w) = Some c -> wf_unfrag (source_raw w vpn) f = true ->
   reply_shape c (source_raw w vpn) r f = true ->
   exists rec, snd (process (kind_of_method (w_method w)) (method_raw w vpn)
-                           (code_valid (kind_of_method (w_method w))) st f) = ORecord rec.
+                           (code_valid (kind_of_method (w_method w))) st
+                           (take (snaplen_of (w_filter w)) f)) = ORecord rec.
 Proof.
   intros w c vpn r st f Hin Hc Hwf Hs. apply (C03_iff w c vpn r st f Hin Hc Hwf) in Hs.
-  eexists. exact (C03_record_faithful w vpn r st f Hs).
+  eexists. exact (C03_record_faithful w vpn r st f Hin Hwf Hs).
 Qed.
 
 (* the tcp.AllFlags printer of the sources prints the letters the model prints *)
@@ -109,6 +115,7 @@ Print Assumptions C03_wiring_ok.
 Print Assumptions C03_iff.
 Print Assumptions C03_every_command_classified.
 Print Assumptions C03_record_faithful.
+Print Assumptions C03_snaplen_covers_headers.
 Print Assumptions C03_one_record.
 Print Assumptions C03_flag_letters.
 Print Assumptions C03_syn_ns_refuted_orig.
